@@ -23,6 +23,8 @@ struct Ledger {
   std::map< long, long > tasks_by_type;
   std::vector< long > term_in_task, absorbed_in_task, relaunched_in_task, running_task;
   long flush_tasks = 0;
+  std::map< long, long > task_subgrid;          // task slot -> subgrid (traversal tasks)
+  std::map< long, std::pair< long, int > > traversing; // subgrid -> (task, thread) of the running traversal task
   long iterations_ended = 0;
   std::string outcome;
 };
@@ -46,10 +48,29 @@ static void ledger_monitor(const e1::Event &e) {
     L.running_task.assign(L.nthreads, -1);
     L.flush_tasks = 0;
     L.tasks_by_type.clear();
+    L.task_subgrid.clear();
+    L.traversing.clear();
     if (L.iter > 0)
       e1::mark_seen("second-iteration");
+  } else if (w == "task_subgrid") {
+    if (e.c == TASKTYPE_PHOTON_TRAVERSAL)
+      L.task_subgrid[e.a] = e.b;
+    else
+      L.task_subgrid.erase(e.a);
   } else if (w == "task_start") {
     ++L.tasks_started;
+    {
+      auto sg = L.task_subgrid.find(e.a);
+      if (e.b == TASKTYPE_PHOTON_TRAVERSAL && sg != L.task_subgrid.end()) {
+        auto run = L.traversing.find(sg->second);
+        if (run != L.traversing.end())
+          viol("subgrid-exclusivity", fmt("traversal task %ld on thread %d starts on subgrid %ld while traversal task %ld on thread %d is running there",
+                                          e.a, t, sg->second, run->second.first, run->second.second));
+        else
+          e1::mark_seen(L.traversing.empty() ? "traversal-alone" : "traversals-overlap-in-time");
+        L.traversing[sg->second] = std::make_pair(e.a, t);
+      }
+    }
     L.tasks_by_type[e.b]++;
     if (t < (int)L.running_task.size()) {
       if (L.running_task[t] != -1)
@@ -66,6 +87,14 @@ static void ledger_monitor(const e1::Event &e) {
   } else if (w == "task_stop") {
     if (t < (int)L.running_task.size())
       L.running_task[t] = -1;
+    if (e.b == TASKTYPE_PHOTON_TRAVERSAL) {
+      auto sg = L.task_subgrid.find(e.a);
+      if (sg != L.task_subgrid.end()) {
+        auto run = L.traversing.find(sg->second);
+        if (run != L.traversing.end() && run->second.first == e.a)
+          L.traversing.erase(run);
+      }
+    }
   } else if (w == "pkt_launch") {
     if (L.alive.count(e.a))
       viol("ledger:launch-duplicate", fmt("packet %lx launched while alive (kind %ld, iteration %ld)", e.a, e.b, L.iter));
